@@ -1,19 +1,19 @@
 SPECIFICATION Spec
 CONSTANTS
   MaxLf = 2
-  MaxCalls = 4
-  Names = {"A"}
+  MaxCalls = 8
+  Names = {"A", "B"}
   SetNames = {0, 1}
   Classes = {"ZONE", "PARAMETER"}
-  OriginRefs = {0}
+  OriginRefs = {0, 1}
   RefFrom = "PARAMETER"
   RefTo = "ZONE"
-  HeaderShare = TRUE
-  OkSet = {TRUE}
+  HeaderShare = FALSE
+  OkSet = {TRUE, FALSE}
   ForeignRefCheck = TRUE
   HeaderSetCheck = TRUE
-  Mutations = FALSE
+  Mutations = TRUE
   CopyRule = "firstfree"
-  ItemRefs = {0}
+  ItemRefs = {0, 7}
 INVARIANT PrintLeaf
 CHECK_DEADLOCK FALSE
